@@ -1387,6 +1387,9 @@ func (fx *FnExec) doRecv(st *State, fr *frame, x *ssa.UnOp) {
 	ln := st.ghostLoad("chanlen", "Int", c)
 	st.ghostStore("chanlen", "Int", c, "(ite (and "+ok+" (> "+ln+" 0)) (- "+ln+" 1) "+ln+")")
 	fx.chanMsgTransfer(st, fr, et, v, ok, false, x, c, x.X.Type())
+	// a receive is visible to contracts like a call: callres("recv#N", 0, T) is
+	// the value, callres("recv#N", 1, "bool") whether one was received
+	fx.recordCall(st, x, []Term{v, ok})
 	if x.CommaOk {
 		st.tups[x] = []Term{v, ok}
 	} else {
